@@ -127,7 +127,7 @@ def run(ctx, driver):
     quick = ctx.tier == "quick"
     ctx.rule = ("generated systems (17 coupling shapes incl. nonlinear / higher order / offsets), analysis stopped before propagators; symbolic Jacobian "
                 "evaluated at a random rational point vs d(user rhs)/dx from the input text; the expression handed to sympy.diff vs the model; "
-                "plus numerical_jacobian vs central differences of step() on 4 fixed systems; distinct = distinct inputs; non-trivial = system with a non-zero A and >= 2 variables or a nonlinearity")
+                "plus numerical_jacobian vs central differences of step() on 4 fixed systems; distinct = distinct inputs; non-trivial = system with a non-zero A and >= 2 variables or a nonlinearity; a quarter of the inputs carry a function-of-time entry, a third a custom derivative marker; J is also compared with d(Ax+b+c)/dx of the complete stored system; a fifth as many COMPLETE analyses (analytic solver enabled) with the Jacobian taken from the system object afterwards")
     cases = _shared.gen_cases(ctx, ctx.n(130, 2500), stop_frac=1.0, extra=_extra)
     for c in cases:
         c["stop"] = True
